@@ -206,6 +206,9 @@ func (h *history) classOf(q *rq, shape, kind string, vers []string) string {
 	if len(q.Flags) > 0 {
 		c = q.M + "+flags:" + shape + ":" + kind
 	}
+	if q.Only != nil {
+		c = q.M + "+contract_addresses:" + shape + ":" + kind
+	}
 	if len(vers) > 0 && len(vers) < len(versions) { // only some API versions are wrong
 		c += ":only-" + strings.Join(vers, "+")
 	}
